@@ -66,13 +66,20 @@ pub fn check_one(info: &LangInfo, parser: &mut Parser, d: &[u8], ranges: &[(usiz
         if out.is_empty() { if let Some(&(_, s, _)) = seg.first() { if q == 0 { out.push(s); } } else { out.push(0); } }
         out
     };
+    let kind_name = |k: u16| info.language.node_kind_for_id(k).unwrap_or("");
     let conc_bad = xc.has_error_or_missing();
     if !conc_bad {
         if xc.nodes.len() != xr.nodes.len() { errs.push(("ranges-shape-differs".into(), format!("ranges tree {} vs concatenation tree {}", xr.sexp(&info.language), xc.sexp(&info.language)))); }
         else {
             for i in 0..xc.nodes.len() {
                 let (a, b) = (&xr.nodes[i], &xc.nodes[i]);
-                if a.kind_id != b.kind_id || a.children.len() != b.children.len() || a.field_id != b.field_id || a.named != b.named || a.extra != b.extra || a.missing != b.missing {
+                // `seam`: the scanner asks whether a word begins at the first byte of an included range, which the stand-alone
+                // text cannot mirror: the word's kind is expected from the range list itself
+                let want_kind = if info.name == "seam" && (kind_name(b.kind_id) == "seam_word" || kind_name(b.kind_id) == "plain_word") {
+                    let at_start = clipped.iter().any(|&(s, _)| s == a.start);
+                    info.language.id_for_node_kind(if at_start { "seam_word" } else { "plain_word" }, true)
+                } else { b.kind_id };
+                if a.kind_id != want_kind || a.children.len() != b.children.len() || a.field_id != b.field_id || a.named != b.named || a.extra != b.extra || a.missing != b.missing {
                     errs.push(("ranges-shape-differs".into(), format!("node #{}: {} vs {}", i, xr.brief(i), xc.brief(i)))); break;
                 }
                 let (ws, we) = if b.start == b.end {
@@ -128,7 +135,9 @@ fn range_lists(positions: &[usize], nr: usize) -> Vec<Vec<(usize, usize)>> {
 pub fn worker(ctx: &Ctx, res: &mut ShardResult) {
     let (maxlen, _nr) = params(&ctx.tier);
     let mut idx = 0usize;
-    for z in crate::zoo::core_zoo().iter() {
+    let mut langs = crate::zoo::core_zoo();
+    langs.push(crate::zoo::seam());
+    for z in langs.iter() {
         // `colm` is left out: its scanner asks for the column (TSLexer.get_column), which is a property of the document line,
         // not of the included text, so the concatenated stand-alone text is a different input for it by design
         if z.name == "colm" || z.name == "docol" { continue; }
